@@ -17,7 +17,9 @@ import (
 // ---- histories of edits (C18 delete/replace, C09 choices) --------------------------------
 
 type histOp struct {
-	Kind string  `json:"kind"` // upsert | delete | replace | delete2 (two entries of one list, both selected before either is deleted)
+	// Kind: upsert | delete | replace | delete2 (two entries of one list, both selected before either is deleted) |
+	// hold (select Path now and keep the selection) | delete-held (delete through the selection kept by the last hold)
+	Kind string `json:"kind"`
 	Path dm.Path `json:"path,omitempty"`
 	Path2 dm.Path `json:"path2,omitempty"`
 	Src  dm.Tree `json:"src,omitempty"` // upsert: root content; replace: content of the addressed node
@@ -36,7 +38,10 @@ func applyModel(root *dm.Node, t dm.Tree, op histOp) bool {
 	switch op.Kind {
 	case "upsert":
 		return dm.MergeContent(root, t, op.Src, dm.Upsert, false, "") == nil
-	case "delete":
+	case "hold":
+		_, _, ok := dm.Resolve(root, t, op.Path)
+		return ok
+	case "delete", "delete-held":
 		return dm.DeleteAt(root, t, op.Path)
 	case "delete2":
 		return dm.DeleteAt(root, t, op.Path) && dm.DeleteAt(root, t, op.Path2)
@@ -71,9 +76,53 @@ func histSource(kind string, parent *dm.Node, content dm.Tree) (node.Node, error
 }
 
 // applyLib applies op through the library.
-func applyLib(mm *meta.Module, root *dm.Node, store dm.Store, model dm.Tree, op histOp, srcKind string) error {
+// unseats reports whether op removes or re-creates the node at path held (then a selection of it taken earlier stands
+// for a node that is no more, and nothing is promised about it)
+func unseats(op histOp, held dm.Path) bool {
+	prefixOf := func(p dm.Path) bool {
+		if len(p) == 0 || len(p) > len(held) {
+			return false
+		}
+		for i := range p {
+			if p[i].Name != held[i].Name || (p[i].Key != nil && strings.Join(p[i].Key, "\x00") != strings.Join(held[i].Key, "\x00")) {
+				return false
+			}
+		}
+		return true
+	}
+	switch op.Kind {
+	case "delete", "replace":
+		return prefixOf(op.Path)
+	case "delete2":
+		return prefixOf(op.Path) || prefixOf(op.Path2)
+	}
+	return false
+}
+
+// histHeld is the selection a "hold" step keeps for a later "delete-held" step of the same history
+type histHeld struct {
+	sel  *node.Selection
+	path string
+	at   dm.Path
+}
+
+func applyLib(mm *meta.Module, root *dm.Node, store dm.Store, model dm.Tree, op histOp, srcKind string, held *histHeld) error {
 	sel := node.NewBrowser(mm, store.Node()).Root()
 	switch op.Kind {
+	case "hold":
+		t, err := sel.Find(findPath(op.Path))
+		if err != nil || t == nil {
+			return fmt.Errorf("harness: Find(%s): sel=%v err=%v", findPath(op.Path), t != nil, err)
+		}
+		held.sel, held.path, held.at = t, findPath(op.Path), op.Path
+		return nil
+	case "delete-held":
+		if held.sel == nil || held.path != findPath(op.Path) {
+			return fmt.Errorf("harness: no selection held for %s", findPath(op.Path))
+		}
+		t := held.sel
+		held.sel = nil
+		return t.Delete()
 	case "upsert":
 		src, err := histSource(srcKind, root, op.Src)
 		if err != nil {
@@ -183,14 +232,26 @@ func histRun(prop string) func(c histCase, o *hx.Obs) {
 		model := dm.CloneTree(c.Initial)
 		opts := dm.DiffOpts{ListsAsSets: !store.KeepsOrder(), IgnoreEmptyList: true, ZeroIsUnset: store.ZeroIsUnset()}
 		deletes, afterDelete, nestedDelete, switches := 0, false, false, 0
+		held := &histHeld{}
 		for i, op := range c.Ops {
 			before := dm.CloneTree(model)
+			if op.Kind == "delete-held" && (held.sel == nil || held.path != findPath(op.Path)) {
+				continue // its hold step was skipped
+			}
 			if !applyModel(root, model, op) {
 				model = before
+				if op.Kind == "delete-held" {
+					held.sel = nil // the node it was to delete is gone already
+				}
 				continue // not applicable any more (shrinking); skip on both sides
 			}
 			o.Class("op=%s", op.Kind)
-			if op.Kind == "delete" || op.Kind == "delete2" {
+			if held.sel != nil && op.Kind != "hold" && op.Kind != "delete-held" {
+				if _, _, still := dm.Resolve(root, model, held.at); !still || unseats(op, held.at) {
+					held.sel = nil // the node the kept selection stands for was removed or made anew
+				}
+			}
+			if op.Kind == "delete" || op.Kind == "delete2" || op.Kind == "delete-held" {
 				deletes++
 				if len(op.Path) > 1 {
 					nestedDelete = true
@@ -222,7 +283,7 @@ func histRun(prop string) func(c histCase, o *hx.Obs) {
 				}
 				return kind + "|" + posKind + "|" + clause + "|" + c.Store
 			}
-			if o.Guard(op.Kind, func() { lerr = applyLib(mm, root, store, before, op, c.SrcKind) }) {
+			if o.Guard(op.Kind, func() { lerr = applyLib(mm, root, store, before, op, c.SrcKind, held) }) {
 				return
 			}
 			if lerr != nil {
@@ -247,7 +308,7 @@ func histRun(prop string) func(c histCase, o *hx.Obs) {
 				return
 			}
 			// navigation agrees: removed node is gone, remaining entries are found under their keys
-			if op.Kind == "delete" || op.Kind == "delete2" {
+			if op.Kind == "delete" || op.Kind == "delete2" || op.Kind == "delete-held" {
 				var fs *node.Selection
 				var ferr error
 				if o.Guard("Find(deleted)", func() { fs, ferr = node.NewBrowser(mm, store.Node()).Root().Find(findPath(op.Path)) }) {
@@ -328,7 +389,90 @@ func histGen(prop string, stores []string) func(t *rapid.T) histCase {
 		model := dm.Subsample(t, root, u, 70, 0, to)
 		c := histCase{Module: m, Initial: dm.CloneTree(model), Store: store, SrcKind: rapid.SampledFrom([]string{"rs", "json"}).Draw(t, "src")}
 		n := rapid.IntRange(1, 8).Draw(t, "nops")
+		// a selection of a list entry taken before the history starts and used for a delete later on, while other
+		// steps add to and remove from the same lists through selections of their own
+		var heldPath dm.Path
+		if prop != "C09" && n >= 3 && rapid.IntRange(0, 2).Draw(t, "hold?") == 0 {
+			var entries []dm.Path
+			for _, p := range dm.AllPaths(root, model, nil) {
+				if p[len(p)-1].Key != nil {
+					entries = append(entries, p)
+				}
+			}
+			if len(entries) > 0 {
+				heldPath = entries[rapid.IntRange(0, len(entries)-1).Draw(t, "held")]
+				c.Ops = append(c.Ops, histOp{Kind: "hold", Path: heldPath})
+				// half of the time the steps in between are aimed at the very list: a new entry (the slice may have to
+				// grow) and the removal of another one (so that it is as long as before)
+				listPath := append(append(dm.Path{}, heldPath[:len(heldPath)-1]...), dm.Seg{Name: heldPath[len(heldPath)-1].Name})
+				ln, lv, _ := dm.Resolve(root, model, listPath)
+				if rows, _ := lv.([]interface{}); len(rows) >= 2 && rapid.Bool().Draw(t, "same-list") {
+					have := map[string]bool{}
+					var other dm.Path
+					for _, r := range rows {
+						var key []string
+						for _, k := range ln.Keys {
+							key = append(key, r.(dm.Tree)[k].(string))
+						}
+						have[strings.Join(key, "\x00")] = true
+						if other == nil && strings.Join(key, "\x00") != strings.Join(heldPath[len(heldPath)-1].Key, "\x00") {
+							other = append(append(dm.Path{}, listPath[:len(listPath)-1]...), dm.Seg{Name: ln.Name, Key: key})
+						}
+					}
+					var fresh dm.Tree
+					for _, e := range dm.GenEntries(t, ln, to) {
+						var key []string
+						for _, k := range ln.Keys {
+							key = append(key, e.(dm.Tree)[k].(string))
+						}
+						if !have[strings.Join(key, "\x00")] {
+							fresh = e.(dm.Tree)
+							break
+						}
+					}
+					if fresh != nil && other != nil {
+						// the fragment that holds just the way to the list and the new entry
+						src := dm.Tree{}
+						cur, sn := src, root
+						for i, seg := range listPath {
+							d := sn.Child(seg.Name)
+							if i == len(listPath)-1 {
+								cur[seg.Name] = []interface{}{fresh}
+								break
+							}
+							if d.Kind == "list" {
+								e := dm.Tree{}
+								for j, k := range d.Keys {
+									e[k] = seg.Key[j]
+								}
+								cur[seg.Name] = []interface{}{e}
+								cur = e
+							} else {
+								sub := dm.Tree{}
+								cur[seg.Name] = sub
+								cur = sub
+							}
+							sn = d
+						}
+						for _, op := range []histOp{{Kind: "upsert", Src: src}, {Kind: "delete", Path: other}, {Kind: "delete-held", Path: heldPath}} {
+							if applyModel(root, model, op) {
+								c.Ops = append(c.Ops, op)
+							}
+						}
+						heldPath = nil
+					}
+				}
+			}
+		}
 		for i := 0; i < n; i++ {
+			if heldPath != nil && i >= 2 && (i == n-1 || rapid.IntRange(0, 2).Draw(t, "use-held") == 0) {
+				op := histOp{Kind: "delete-held", Path: heldPath}
+				heldPath = nil
+				if applyModel(root, model, op) {
+					c.Ops = append(c.Ops, op)
+				}
+				continue
+			}
 			kinds := []string{"upsert", "upsert"}
 			paths := dm.AllPaths(root, model, nil)
 			if len(paths) > 0 && prop != "C09" {
@@ -380,6 +524,11 @@ func histGen(prop string, stores []string) func(t *rapid.T) histCase {
 			}
 			if applyModel(root, model, op) {
 				c.Ops = append(c.Ops, op)
+				if heldPath != nil {
+					if _, _, still := dm.Resolve(root, model, heldPath); !still || unseats(op, heldPath) {
+						heldPath = nil
+					}
+				}
 			}
 		}
 		return c
